@@ -191,7 +191,7 @@ def make_dataset(d, spec=None):
     if s['channel_map'] == 'identity':
         cmap = np.arange(nc)
     elif s['channel_map'] == 'perm':
-        cmap = np.roll(np.arange(nc), 1)[::-1].copy()
+        cmap = np.roll(np.arange(nc), 1)      # the largest raw index comes first
     else:   # a sub-selection of a wider raw file
         n_dat = max(n_dat, nc + 2)
         cmap = np.array([i + (1 if i >= 1 else 0) + (1 if i >= nc - 1 else 0) for i in range(nc)])
